@@ -202,6 +202,22 @@ class RealRun:
             self.sched = None
             ev['loaded'] = snap_state(self.pre.state_dict())
             w.set_digest(self._digest)
+        elif kind == 'keep':
+            # keep a state in memory WITHOUT copying it (as a training loop
+            # tracking its best checkpoint would) while training continues
+            self.kept = self.pre.state_dict()
+            ev['saved'] = snap_state(self.kept)
+        elif kind == 'loadkept':
+            ev['kept_now'] = snap_state(self.kept)
+            model = R.build_model(self.cfg['model'], self.dtype, self.seed)
+            model.load_state_dict(self.model.state_dict())
+            self.model = model
+            self.pre = self._mk_pre(
+                model, perturb=self.cfg.get('ckpt_perturb', False))
+            self.pre.load_state_dict(self.kept, compute_inverses=op[1])
+            self.sched = None
+            ev['loaded'] = snap_state(self.pre.state_dict())
+            w.set_digest(self._digest)
         elif kind == 'sched':
             # ('sched', {param: factor-spec}, explicit_step|None)
             if self.sched is None or self.sched[0] != op[1]:
@@ -509,6 +525,14 @@ class RefRun:
                     if p.grad is not None:
                         p.add_(p.grad, alpha=-lr)
             self.it += 1
+        elif op[0] == 'keep':
+            self.kept = ref.state(include_factors=True)
+        elif op[0] == 'loadkept':
+            ref2 = R.RefKFAC(names, method=method_of(cfg), **{
+                'fus': ref.fus, 'ius': ref.ius, 'damping': ref.damping,
+                'decay': ref.decay, 'kl_clip': ref.kl_clip, 'lr': ref.lr})
+            ref2.load(self.kept, compute_inverses=op[1])
+            self.ref = ref = ref2
         elif op[0] == 'ckpt':
             st = ref.state(include_factors=op[1])
             ref2 = R.RefKFAC(names, method=method_of(cfg), **{
